@@ -215,7 +215,11 @@ where
 {
     type Stream = Self;
 
-    fn into_parts(self) -> (Vector<VectorDiffContainerStreamElement<S>>, Self::Stream) {
+    fn into_parts(mut self) -> (Vector<VectorDiffContainerStreamElement<S>>, Self::Stream) {
+        // The values are the current view: diffs that are still waiting to be
+        // handed out are already part of it and must not be applied on top.
+        self.ready_values = Default::default();
+
         (self.buffered_vector.clone().truncate_from_end(self.limit), self)
     }
 }
